@@ -534,7 +534,7 @@ impl Engine for C11 {
     fn budget(&self, tier: Tier) -> (u32, u32) {
         match tier {
             Tier::Quick => (64, 24),
-            Tier::Thorough => (256, 40),
+            Tier::Thorough => (256, 100),
         }
     }
     fn strategy(&self, tier: Tier) -> BoxedStrategy<Case> {
